@@ -130,3 +130,74 @@ package rtcp
 //@   safety[C01,C09,C17]
 //@   requires packetLen >= 0
 //@   ensures result == specPad4(packetLen)
+
+// ===================================================================================================
+// receiver_report.go
+// ===================================================================================================
+
+//@ func (r *ReceiverReport) MarshalSize() (result int)
+//@   safety[C09,C17]
+//@   ensures size: result == 8 + 24*len(r.Reports) + len(r.ProfileExtensions) + specPad4(len(r.ProfileExtensions))
+//@   loop 1
+//@     invariant repsLength == 24*iter() && 0 <= iter() && iter() <= len(r.Reports)
+//@     decreases len(r.Reports) - iter()
+
+//@ func (r *ReceiverReport) Header() (result Header)
+//@   safety[C09,C17]
+//@   ensures hdr: result == Header{Padding: false, Count: uint8(len(r.Reports)), Type: TypeReceiverReport, Length: uint16((8+24*len(r.Reports)+len(r.ProfileExtensions)+specPad4(len(r.ProfileExtensions)))/4 - 1)}
+
+//@ func (r ReceiverReport) Marshal() (result []byte, err error)
+//@   safety[C09]
+//@   fresh
+//@   ensures[C08] count: err == nil ==> len(r.Reports) <= 31
+//@   ensures[C08] lost: forall k :: err == nil && 0 <= k && k < len(r.Reports) ==> r.Reports[k].TotalLost < 1<<24
+//@   ensures[C08] complete: exists k :: err != nil ==> len(r.Reports) > 31 || (0 <= k && k < len(r.Reports) && r.Reports[k].TotalLost >= 1<<24)
+//@   ensures[C08] nobytes: err != nil ==> len(result) == 0
+//@   ensures[C03,C05] size: err == nil ==> len(result) == 8 + 24*len(r.Reports) + len(r.ProfileExtensions) + specPad4(len(r.ProfileExtensions))
+//@   ensures[C05] aligned: err == nil ==> len(result)%4 == 0
+//@   ensures[C03,C05,C07] header: err == nil && len(result) <= 4*65536 ==> be32(result, 0) == specHeaderWord(false, uint8(len(r.Reports)), 201, uint16(len(result)/4-1))
+//@   ensures[C03] fixed: err == nil ==> be32(result, 4) == r.SSRC
+//@   ensures[C03] reports: forall k :: err == nil && 0 <= k && k < len(r.Reports) ==> specRREncoded(result, 8+24*k, r.Reports[k])
+//@   ensures[C03] ext: forall k :: err == nil && 0 <= k && k < len(r.ProfileExtensions) ==> result[8+24*len(r.Reports)+k] == r.ProfileExtensions[k]
+//@   ensures[C03] padzero: forall k :: err == nil && 8+24*len(r.Reports)+len(r.ProfileExtensions) <= k && k < len(result) ==> result[k] == 0
+//@   loop 1
+//@     invariant 0 <= iter() && iter() <= len(r.Reports)
+//@     invariant[C08] forall k :: 0 <= k && k < iter() ==> r.Reports[k].TotalLost < 1<<24
+//@     invariant[C03] be32(rawPacket, 4) == r.SSRC
+//@     invariant[C03] forall k :: 0 <= k && k < iter() ==> specRREncoded(rawPacket, 8+24*k, r.Reports[k])
+//@     invariant[C03] forall k :: 8+24*iter() <= k && k < len(rawPacket) ==> rawPacket[k] == 0
+//@     decreases len(r.Reports) - iter()
+
+//@ func (r *ReceiverReport) Unmarshal(rawPacket []byte) (err error)
+//@   safety[C01]
+//@   modifies *r
+//@   nocap
+//@   allocates[C01] 64 + 2*len(rawPacket)
+//@   ensures[C07] type: err == nil ==> rawPacket[1] == 201 && rawPacket[0]>>6 == 2
+//@   ensures[C04] count: err == nil ==> len(r.Reports) == int(rawPacket[0]&31) && len(rawPacket) >= 8+24*len(r.Reports)
+//@   ensures[C04] fixed: err == nil ==> r.SSRC == be32(rawPacket, 4)
+//@   ensures[C04] reports: forall k :: err == nil && 0 <= k && k < len(r.Reports) ==> r.Reports[k] == specRRDecode(rawPacket, 8+24*k)
+//@   ensures[C04,C06] ext: err == nil ==> seqEq(r.ProfileExtensions, rawPacket[8+24*len(r.Reports):])
+//@   ensures[C04] inflated: len(rawPacket) >= 4 && 8+24*int(rawPacket[0]&31) > len(rawPacket) ==> err != nil
+//@   ensures[C04] accepts: len(rawPacket) >= 8+24*int(rawPacket[0]&31) && rawPacket[0]>>6 == 2 && rawPacket[1] == 201 ==> err == nil
+//@   loop 1
+//@     invariant i == 8+24*len(r.Reports) && len(r.Reports) <= int(h.Count) && (len(r.Reports) == 0 || i <= len(rawPacket))
+//@     invariant unchanged(r.SSRC) && unchanged(r.ProfileExtensions)
+//@     invariant[C04] forall k :: 0 <= k && k < len(r.Reports) ==> r.Reports[k] == specRRDecode(rawPacket, 8+24*k)
+//@     decreases int(h.Count) - len(r.Reports)
+
+//@ func (r *ReceiverReport) DestinationSSRC() (result []uint32)
+//@   safety[C09,C10]
+//@   fresh
+//@   ensures[C10] n: len(result) == len(r.Reports)
+//@   ensures[C10] blocks: forall k :: 0 <= k && k < len(r.Reports) ==> result[k] == r.Reports[k].SSRC
+//@   loop 1
+//@     invariant 0 <= iter() && iter() <= len(r.Reports)
+//@     invariant[C10] forall k :: 0 <= k && k < iter() ==> out[k] == r.Reports[k].SSRC
+//@     decreases len(r.Reports) - iter()
+
+//@ func (r ReceiverReport) String() (result string)
+//@   safety[C17]
+//@   loop 1
+//@     invariant 0 <= iter() && iter() <= len(r.Reports)
+//@     decreases len(r.Reports) - iter()
